@@ -11,7 +11,7 @@ from infra import LEAN
 OWNERS = [
     (r"utils_convert|parse_string", ["C14"]),
     (r"group4|ct_init|ct_get", ["C12"]),
-    (r"group1|ecc_lookup", ["C11", "C09", "C04"]),
+    (r"group1(?!0)|ecc_lookup", ["C11", "C09", "C04"]),
     (r"group2", ["C08", "C02", "C04", "C06", "C07"]),
     (r"group10", ["C02", "C04", "C06", "C07"]),
     (r"group0a|add_af|af_set|af_get|af_clear|buffer_add_af", ["C10", "C09", "C04"]),
@@ -28,13 +28,17 @@ OWNERS = [
 ]
 ALL = ["C%02d" % i for i in range(1, 21)]
 
+# whole-system properties: "behaves like a fresh parser after clear" (C13), "observers never alter decoding" (C15) and
+# "unused blocks are irrelevant" (C03) quantify over everything the library does, so every function is theirs
+EVERYWHERE = ["C03", "C13", "C15"]
+
 def owners_of(text):
     props = set()
     for fn in set(re.findall(r"c_rdsparser_\w+|cSetField|cRegister|cstep|crun", text)):
         hit = False
         for pat, ps in OWNERS:
             if re.search(pat, fn):
-                props.update(ps); hit = True
+                props.update(ps); props.update(EVERYWHERE); hit = True
                 break
         if not hit:
             if fn in ("cSetField",): props.update(["C01", "C09", "C04", "C15"])
@@ -83,9 +87,19 @@ def check(ctx, locked=True):
         return {"status": "absent", "broken": []}
     extra = untranslated_beyond_design()
     if extra:
-        # the C source now uses a construct outside the translator's subset: T0 cannot speak about these functions on
-        # this tree. That is a limit of the translator, not a broken proof: the tie falls back to T1/T2 for this run.
-        return {"status": "unavailable", "broken": [], "untranslated": [{"function": n, "reason": r} for n, r in extra][:20]}
+        # The C source now uses a construct outside the translator's subset: the model of these functions cannot be
+        # regenerated from the source, so the refinement theorems about them cannot be re-checked on this tree. That is a
+        # broken obligation like a failing proof (it may be a harmless rewrite; it may as well hide a change of behaviour):
+        # the properties whose proofs rest on these functions search for a failing input and report either way.
+        broken = []
+        roots = [(n, r) for n, r in extra if not r.startswith("calls ")] or extra
+        for n, r in roots:
+            own = sorted(owners_of("c_" + n)) if any(re.search(pat, n) for pat, _ in OWNERS) else []
+            broken.append({"file": "RdsC/Translated.lean", "line": 0, "decl": "c_" + n,
+                           "msg": "not translatable on this tree: " + r[:160], "owners": own})
+        if not any(b["owners"] for b in broken):
+            for b in broken: b["owners"] = ALL
+        return {"status": "untranslatable", "broken": broken, "untranslated": [{"function": n, "reason": r} for n, r in extra][:20]}
     ok, out, dt = infra.lake_build([REFINE_MODULE], locked=locked)
     res = {"status": "ok" if ok else "broken", "broken": [], "build_s": round(dt, 1)}
     if ok:
